@@ -246,6 +246,9 @@ func body04(s scn, f fault, probe bool) Body {
 			c.C.FailWriteAt = c.HsLen + f.k
 		case "callback":
 			fa.n = f.k
+		case "callbackexc":
+			fa.n = f.k
+			fa.exc = true
 		case "exc", "cancelexc":
 			inj = &Inject{G: f.k, Stop: true, Bytes: c.W.Exception(excReadonly)}
 		case "excdeep":
@@ -455,6 +458,9 @@ func C04(c *vk.Ctx) {
 		}
 		for j := 1; j <= calls; j++ {
 			jobs = append(jobs, job{s, fault{kind: "callback", k: j}, gb, false})
+			// the same callback failing with an error that wraps a server exception of another
+			// connection: it is still a local failure in the middle of this stream
+			jobs = append(jobs, job{s, fault{kind: "callbackexc", k: j}, 0, false})
 		}
 		for g := 0; g <= term; g++ {
 			b := gb
